@@ -108,7 +108,7 @@ def two_dim_fullcov(G, ctx, n):
         case = {"kind": "elbo-2d-fullcov", "estimator": est}
         if not np.allclose(vals, logZ, atol=5e-3):
             ctx.property_failure(None, f"full-covariance ELBO at the exact posterior is not log p(x) for every draw ({est}): [{vals.min():.4f},{vals.max():.4f}] vs {logZ:.4f}", case)
-        L = jnp.array([[0.9, 0.0], [0.6, 0.5]])         # non-diagonal Cholesky factor, off the posterior
+        L = jnp.array([[1.2, 0.0], [-0.9, 0.4]])        # strongly non-diagonal Cholesky factor, off the posterior
         params = {"mean": jnp.array([0.2, -0.1]), "chol_cov": L}
 
         def closed(p):
@@ -119,7 +119,7 @@ def two_dim_fullcov(G, ctx, n):
                 z = mu + Lc @ e
                 return mvn.logpdf(z, jnp.zeros(2), jnp.eye(2)) + jnp.sum(norm.logpdf(y, Hm @ z, 0.7)) - mvn.logpdf(z, mu, cov)
             return gaussian_expect(f, 2)
-        keys = jr.split(jr.key(ctx.seed + 4), n)
+        keys = jr.split(jr.key(ctx.seed + 4), 4 * n)
         vals = np.asarray(jax.jit(jax.vmap(lambda k: G.seed(elbo.estimate)(k, params)))(keys))
         ok, mean, se = z_ok(vals, float(closed(params)))
         case.update({"mean_elbo": mean, "closed_form": float(closed(params)), "log_evidence": logZ})
